@@ -76,7 +76,7 @@ func (t *topologyPlugin) initializeTopologyTree(topologies []*kaiv1alpha1.Topolo
 
 func (*topologyPlugin) addNodeDataToTopology(topologyTree *Info, topology *kaiv1alpha1.Topology, nodeInfo *node_info.NodeInfo) {
 	// Validate that the node is part of the topology
-	if !isNodePartOfTopology(nodeInfo, topology.Spec.Levels) {
+	if len(topology.Spec.Levels) == 0 || !isNodePartOfTopology(nodeInfo, topology.Spec.Levels) {
 		return
 	}
 
